@@ -82,7 +82,18 @@ def corpus(ctx):
             dict(kind='pattern', sig=[0, 1, 3, 3, 1, -1, -2, -2, 0, 1, 2, 1, -1, -1], b='00111100001110', padlen=0, boundary=0, first='peak'),
             dict(kind='pattern', sig=[1, 2, 3, 2], b='000011110000', padlen=4, boundary=0, first='None'),
             dict(kind='pattern', sig=[1, 2, 3, 2, 1, 0], b='111000', padlen=0, boundary=0, first='None'),
-            dict(kind='pattern', sig=[1, 2, 3, 2, 1, 0], b='111111', padlen=0, boundary=0, first='peak')]
+            dict(kind='pattern', sig=[1, 2, 3, 2, 1, 0], b='111111', padlen=0, boundary=0, first='peak'), _long_case()]
+
+def _long_case():
+    """directed: a LONG recording (beyond 2^16 samples) of noise-free bursts separated by an exactly flat zero baseline longer than the filter: the
+    narrow-band signal is exactly 0.0 there and nothing may be reported on the baseline (a size-dependent fast path must agree with the direct one)"""
+    fs, n = 500, 70000
+    t = np.arange(n) / fs
+    x = np.sin(2 * np.pi * 10 * t)
+    env = np.zeros(n)
+    for a in range(2000, n - 3000, 9000):
+        env[a:a + 2500] = 1.0
+    return dict(kind='signal', sig=proto.arr2hex(x * env), fs=fs, f_range=[8.0, 12.0], fk=None, boundary=0, first='peak', pad=True, family='long-bursts')
 
 def generate(ctx):
     rng = ctx.rng
